@@ -396,6 +396,12 @@ func init() {
 	add("C01", "S-ALLCOLS")
 	registerRule(&RuleDef{ID: "S-NOEMPTY", Min: 2, Doc: "a table is added to a notification only when a row update survived the filter", Run: ruleSNOEMPTY})
 	add("C07", "S-NOEMPTY")
+	registerRule(&RuleDef{ID: "ERR-NILRET", Min: 150, Doc: "a function with an error result does not return a nil error straight from the branch on which an error it tested is set (two listed exceptions)", Run: ruleERRNILRET})
+	add("C02", "ERR-NILRET")
+	add("C03", "ERR-NILRET")
+	add("C09", "ERR-NILRET")
+	add("C12", "ERR-NILRET")
+	add("C19", "ERR-NILRET")
 	add("C01", "ERR-LOOP")
 	add("C03", "X1", "MAX-ONE")
 	add("C04", "MAX-ONE")
